@@ -33,8 +33,9 @@ type pdDesc struct {
 	IDStart  uint64  `json:"id_start"`
 	TSStart  uint64  `json:"ts_start"`
 	Reqs     []pdReq `json:"reqs"`
-	Schedule []int   `json:"schedule"` // thread ids; id+100 = grant the thread at the persistMu.Lock point even if the mutex is held
-	Drain    bool    `json:"drain"`    // complete the first incarnation round-robin before the crash
+	Schedule []int   `json:"schedule"`       // thread ids; id+100 = grant the thread at the persistMu.Lock point even if the mutex is held
+	Drain    bool    `json:"drain"`          // complete the first incarnation round-robin before the crash
+	Fail     []bool  `json:"fail,omitempty"` // requests whose checkpoint write (tmp file) is made to fail once
 	IDStart2 uint64  `json:"id_start2"`
 	TSStart2 uint64  `json:"ts_start2"`
 	Reqs2    []pdReq `json:"reqs2"`
@@ -156,6 +157,9 @@ func pdCase(base string, d pdDesc) (corr.Case, error) {
 	var steps []string
 	var images []string
 	var imgErr error
+	cur := -1 // thread holding the grant
+	injected := make([]bool, len(d.Reqs))
+	errored := make([]bool, len(d.Reqs))
 	imaging := true
 	nimg := 0
 	// every file-system operation of SaveAllocatorState is a crash point: the directory is
@@ -164,6 +168,10 @@ func pdCase(base string, d pdDesc) (corr.Case, error) {
 	hook := func(op vfs.Op, path string) error {
 		if !strings.Contains(filepath.Base(path), pdstorage.StateFileName) || (op != vfs.OpWriteFile && op != vfs.OpRename) {
 			return nil
+		}
+		if op == vfs.OpWriteFile && cur >= 0 && cur < len(d.Fail) && d.Fail[cur] && !injected[cur] {
+			injected[cur] = true
+			return fmt.Errorf("injected checkpoint write failure")
 		}
 		mu.Lock()
 		on, k := imaging, len(steps)
@@ -219,7 +227,11 @@ func pdCase(base string, d pdDesc) (corr.Case, error) {
 			f, _, err := in.call(r)
 			mu.Lock()
 			if err != nil {
-				failed = true
+				if t < len(d.Fail) && d.Fail[t] && strings.Contains(err.Error(), "injected checkpoint write failure") {
+					errored[t] = true
+				} else {
+					failed = true
+				}
 			}
 			first[t] = f
 			mu.Unlock()
@@ -236,7 +248,13 @@ func pdCase(base string, d pdDesc) (corr.Case, error) {
 			resp = first[st.Thread]
 		}
 		mu.Unlock()
-		line := fmt.Sprintf("%s %d %s %d %d %d %d %d %d", kind, st.Thread, corr.Bool(st.Ran), pdTag(st),
+		tag := pdTag(st)
+		mu.Lock()
+		if tag == 5 && st.Thread >= 0 && st.Thread < len(errored) && errored[st.Thread] {
+			tag = 7 // the request returned the injected error
+		}
+		mu.Unlock()
+		line := fmt.Sprintf("%s %d %s %d %d %d %d %d %d", kind, st.Thread, corr.Bool(st.Ran), tag,
 			in.ids.Current(), in.ts.Current(), cid, cts, resp)
 		for _, w := range st.Woken {
 			if w == waiting {
@@ -254,12 +272,23 @@ func pdCase(base string, d pdDesc) (corr.Case, error) {
 			// the real Lock blocks (goroutine-state fallback of the scheduler); the model's thread stays disabled
 			forced, kind, waiting = t, "Sf", t
 		}
+		cur = t
 		after(i, s.Grant(t))
 		forced, kind = -1, "St"
 	}
 	if d.Drain {
-		s.Drain(12*len(d.Reqs), after)
+		for n, progressed := 0, true; progressed && n < 12*len(d.Reqs); {
+			progressed = false
+			for _, t := range s.Live() {
+				cur = t
+				st := s.Grant(t)
+				after(n, st)
+				n++
+				progressed = progressed || st.Ran
+			}
+		}
 	}
+	cur = -1
 	for _, id := range s.Live() {
 		if p := s.Point(id); p != "" && !strings.HasSuffix(p, ".reserve") {
 			interleaved = true
@@ -298,7 +327,15 @@ func pdCase(base string, d pdDesc) (corr.Case, error) {
 	}
 	cid, cts := pdCheckpoint(dir2)
 	_ = in2.store.Close()
-	term := fmt.Sprintf("Cs %d %d %s %s %s (Cr %d %d %s %d %d %s %d %d)", d.IDStart, d.TSStart, reqTerm(d.Reqs), corr.List(steps),
+	head := fmt.Sprintf("Cs %d %d %s", d.IDStart, d.TSStart, reqTerm(d.Reqs))
+	if len(d.Fail) > 0 {
+		fl := make([]string, len(d.Fail))
+		for i, f := range d.Fail {
+			fl[i] = corr.Bool(f)
+		}
+		head = fmt.Sprintf("Cf %d %d %s %s", d.IDStart, d.TSStart, reqTerm(d.Reqs), corr.List(fl))
+	}
+	term := fmt.Sprintf("%s %s %s (Cr %d %d %s %d %d %s %d %d)", head, corr.List(steps),
 		corr.List(images), d.IDStart2, d.TSStart2, reqTerm(d.Reqs2), id0, ts0, corr.List(firsts), cid, cts)
 	return corr.Case{Coq: term, Nontrivial: interleaved, Desc: d}, nil
 }
@@ -336,6 +373,19 @@ func runPdAlloc(c *corr.Ctx) error {
 		for _, cs := range cases {
 			var d pdDesc
 			b, _ := json.Marshal(cs.Desc)
+			var bd bootDesc
+			if json.Unmarshal(b, &bd) == nil && bd.Boot {
+				bin, err := buildNokv(c.Out)
+				if err != nil {
+					return err
+				}
+				bc, err := pdBootCase(bin, base, bd)
+				if err != nil {
+					return err
+				}
+				c.Emit(bc)
+				continue
+			}
 			if err := json.Unmarshal(b, &d); err != nil {
 				return err
 			}
@@ -345,6 +395,20 @@ func runPdAlloc(c *corr.Ctx) error {
 		}
 		return nil
 	}
+	// restart through the real `nokv pd` command (start-value resolution of cmd/nokv/pd.go)
+	bin, err := buildNokv(c.Out)
+	if err != nil {
+		return err
+	}
+	for _, bd := range bootDescs() {
+		bc, err := pdBootCase(bin, base, bd)
+		if err != nil {
+			return err
+		}
+		c.Count("command_restart")
+		c.Emit(bc)
+	}
+	os.Remove(bin)
 	var ferr error
 	b2, b3 := c.Scale(7, 10), c.Scale(6, 8)
 	if c.Tier == "search" {
@@ -368,6 +432,29 @@ func runPdAlloc(c *corr.Ctx) error {
 	})
 	if ferr != nil {
 		return ferr
+	}
+	// a checkpoint write fails (I/O error on the temporary file): the request returns an error and
+	// the next checkpoint must still be written
+	for _, fl := range [][]bool{{true, false}, {false, true}} {
+		fl := fl
+		sched.Prefixes(2, c.Scale(6, 9), func(w []int) bool {
+			c.Count("failing_write_prefix")
+			ferr = emit(pdDesc{IDStart: 1, TSStart: 1, Reqs: mix2, Fail: fl, Schedule: append([]int{0, 1}, w...), Drain: true, IDStart2: 1, TSStart2: 1, Reqs2: after})
+			return ferr == nil
+		})
+		if ferr != nil {
+			return ferr
+		}
+	}
+	for i := 0; i < c.Scale(100, 2000); i++ {
+		n := 2 + c.Rng.Intn(2)
+		d := pdDesc{IDStart: 1, TSStart: 1, Reqs: genPdReqs(c, n), Fail: make([]bool, n), IDStart2: 1, TSStart2: 1, Reqs2: genPdReqs(c, 1+c.Rng.Intn(2)),
+			Schedule: sched.RandomBlocks(c.Rng, n, 2+c.Rng.Intn(6*n), 4), Drain: c.Rng.Intn(3) > 0}
+		d.Fail[c.Rng.Intn(n)] = true
+		c.Count("failing_write_random")
+		if err := emit(d); err != nil {
+			return err
+		}
 	}
 	// a request is granted at persistMu.Lock while another one holds the mutex
 	for i := 0; i < c.Scale(150, 2500); i++ {
